@@ -266,7 +266,14 @@ func (fr *Frame) step(st *State, ins ssa.Instruction) bool {
 		return true
 
 	case *ssa.RunDefers:
+		fr.curRet = ""
+		for _, x := range in.Block().Instrs {
+			if ret, ok := x.(*ssa.Return); ok {
+				fr.curRet = fr.anchorName(ret, "return")
+			}
+		}
 		fr.runDefers(st)
+		fr.curRet = ""
 		return st.pc != "false"
 
 	case *ssa.Return:
@@ -479,6 +486,9 @@ func (r *Run) zeroObject(st *State, p Val) {
 			case KPtr:
 				r.store(st, fp, r.zeroVal(u.Field(i).Type()))
 			case KRef:
+				if tk := typeKey(u.Field(i).Type()); tk == "sync.Mutex" || tk == "sync.RWMutex" {
+					r.set(st, "g|$held", sStore(r.get(st, "g|$held"), fp.S, "false"))
+				}
 				r.zeroObject(st, fp)
 			}
 		}
